@@ -47,6 +47,7 @@ pub mod verif_hooks {
         crate::proc_gen::verif_next_var_name(id_inc)
     }
     pub use crate::parse::{verif_convert_scopes, verif_parse_expr, verif_parse_value};
+    pub use crate::binding_map::verif_run_collector;
     pub use crate::proc_gen::verif::{proc_gen_expr, VerifScope};
     pub fn entities_decode(s: &str) -> Option<String> {
         crate::entities::decode(s).map(|x| x.into_owned())
